@@ -419,6 +419,7 @@ func runDrawHistory(t *rapid.T) {
 	if err != nil {
 		t.Fatalf("HARNESS: %v", err)
 	}
+	w.s.Note(hx.Fingerprint(w0, h0, ops))
 	w.s.Spawn("poller", func() {
 		simrt.Wait("init", func() bool { return w.inCall != "init" })
 		for w.scr.PollEvent() != nil {
@@ -575,6 +576,7 @@ func runCallbacks(t *rapid.T) {
 	}
 	var want []string
 	ready := false
+	w.s.Note(hx.Fingerprint(cbNames(cbs), flags, mouseOn, pasteOn, focusOn))
 	w.s.Spawn("app", func() {
 		if err := w.scr.Init(); err != nil {
 			w.failf("C19/event", "Init: %v", err)
